@@ -22,6 +22,8 @@ Effects are the primitives the property C02 forbids before the verdict:
   resolve:<callee>   gettype, _import_obj, anything of importlib/pkgutil/runpy, __import__, eval/exec/compile, pickle,
                      getattr/setattr/delattr with a computed attribute name
   fs:<callee>        open, os.*, shutil.*, tempfile.*, subprocess.*, pathlib write methods, ZipFile.extract*, ...
+  mem:<callee>       np.save / save_npz whose first argument is a local variable bound only to io.BytesIO(), and
+                     zip_file.writestr when _save builds its ZipFile over a local io.BytesIO(): writers that stay in memory
 A call to a module-level external function of a module that is neither known-pure nor known-effectful aborts the
 translation (fail-closed): the obligation is then reported as broken, not silently passed.
 
@@ -244,6 +246,26 @@ def scan():
         raise Abort("_utils._get_state (the singledispatch function) not found")
     escaping -= dispatch_funcs
 
+    def bytesio_locals(fnode):
+        """names of local variables that are bound ONLY to io.BytesIO() in this function"""
+        good, bad = set(), set()
+        for n in ast.walk(fnode):
+            if isinstance(n, ast.Assign):
+                for t in n.targets:
+                    if isinstance(t, ast.Name):
+                        v = n.value
+                        is_bio = isinstance(v, ast.Call) and ast.unparse(v.func) in ("io.BytesIO", "BytesIO") and not v.args and not v.keywords
+                        (good if is_bio else bad).add(t.id)
+        return good - bad
+
+    # the archive is assembled in memory: ZipFile(<a local io.BytesIO()>, "w", ...) in _persist._save
+    zip_in_memory = False
+    if "_persist._save" in funcs:
+        fnode = funcs["_persist._save"].node
+        bio = bytesio_locals(fnode)
+        zf = [c for c in ast.walk(fnode) if isinstance(c, ast.Call) and ast.unparse(c.func).split(".")[-1] == "ZipFile"]
+        zip_in_memory = bool(zf) and all(c.args and isinstance(c.args[0], ast.Name) and c.args[0].id in bio for c in zf)
+
     def ext_effect(dotted, fn, lineno):
         """classify a module-level external callee; returns effect string or None; aborts when unknown"""
         parts = dotted.split(".")
@@ -453,11 +475,36 @@ def scan():
                     into_calls.update(all_inits)
                     into_calls.update(escaping)
 
+    def relabel_memory_writers(fn):
+        """np.save / save_npz into a local io.BytesIO(), and writestr into the in-memory zip, do not touch the file system"""
+        bio = bytesio_locals(fn.node)
+        mem_ok = {}
+        for c in ast.walk(fn.node):
+            if isinstance(c, ast.Call):
+                name = ast.unparse(c.func)
+                last = name.split(".")[-1]
+                if last in ("save", "save_npz", "savez"):
+                    ok = bool(c.args) and isinstance(c.args[0], ast.Name) and c.args[0].id in bio
+                    mem_ok[last] = mem_ok.get(last, True) and ok
+                if last == "writestr":
+                    ok = zip_in_memory and name.endswith("zip_file.writestr")
+                    mem_ok[last] = mem_ok.get(last, True) and ok
+        out = set()
+        for e in fn.effects:
+            kind, _, what = e.partition(":")
+            last = what.split(".")[-1]
+            if kind == "fs" and mem_ok.get(last) is True:
+                out.add("mem:" + what)
+            else:
+                out.add(e)
+        fn.effects = out
+
     funcs["_utils._get_state"].calls |= dispatch_funcs
     for key, fn in list(funcs.items()):
         analyse(fn, fn.node.body + fn.node.decorator_list + fn.node.args.defaults + [d for d in fn.node.args.kw_defaults if d is not None], fn.calls, fn.effects)
         if key.rsplit(".", 1)[-1] in SKOPS_RESOLVERS and fn.cls is None:
             fn.effects.add(f"resolve:{key}")
+        relabel_memory_writers(fn)
 
     # every call site of a KWARGS_ATTR_OK function passes literal keywords only
     for key in KWARGS_ATTR_OK:
@@ -491,47 +538,53 @@ def scan():
             if k in funcs:
                 funcs[k].effects = {"reflect:" + e.split(":", 1)[1] for e in funcs[k].effects}
 
-    # split load / loads at the audit
-    entries = []
-    for name in ("load", "loads"):
-        key = f"_persist.{name}"
+    # split load / loads at the audit, dump at the serialisation
+    def calls_named(st, nm):
+        return any(isinstance(c, ast.Call) and ((isinstance(c.func, ast.Name) and c.func.id == nm) or (isinstance(c.func, ast.Attribute) and c.func.attr == nm)) for c in ast.walk(st))
+
+    def split_at(key, callee, forbidden_before=()):
+        """<key>@pre = the calls of function `key` up to and including its (unconditional, straight-line) call of `callee`,
+        <key>@post = the rest"""
         if key not in funcs:
             raise Abort(f"{key} not found")
         fn = funcs[key]
-        # flatten: statements of the function body, descending into `with` blocks (straight-line code only)
         flat = []
 
         def flatten(stmts):
-            for s in stmts:
-                if isinstance(s, (ast.With, ast.AsyncWith)):
-                    flat.append(ast.Expr(value=ast.Tuple(elts=[i.context_expr for i in s.items], ctx=ast.Load())))
-                    flatten(s.body)
+            for st in stmts:
+                if isinstance(st, (ast.With, ast.AsyncWith)):
+                    flat.append(ast.Expr(value=ast.Tuple(elts=[i.context_expr for i in st.items], ctx=ast.Load())))
+                    flatten(st.body)
                 else:
-                    flat.append(s)
+                    flat.append(st)
         flatten(fn.node.body)
-
-        def calls_named(s, nm):
-            return any(isinstance(c, ast.Call) and ((isinstance(c.func, ast.Name) and c.func.id == nm) or (isinstance(c.func, ast.Attribute) and c.func.attr == nm)) for c in ast.walk(s))
-        idx = [i for i, s in enumerate(flat) if calls_named(s, "audit_tree")]
+        idx = [i for i, st in enumerate(flat) if calls_named(st, callee)]
         if not idx:
-            raise Abort(f"{key}: no call of audit_tree found -- the verdict point cannot be located")
+            raise Abort(f"{key}: no call of {callee} found -- the split point cannot be located")
         cut = idx[0]
         if isinstance(flat[cut], (ast.If, ast.For, ast.While, ast.Try)):
-            raise Abort(f"{key}: audit_tree is called under a condition / in a loop")
-        for i, s in enumerate(flat[:cut + 1]):
-            if calls_named(s, "construct") or calls_named(s, "_construct"):
-                raise Abort(f"{key}: construct() is called before the audit (statement {i})")
+            raise Abort(f"{key}: {callee} is called under a condition / in a loop")
+        for i, st in enumerate(flat[:cut + 1]):
+            for bad in forbidden_before:
+                if calls_named(st, bad):
+                    raise Abort(f"{key}: {bad}() is called before {callee} (statement {i})")
         pre = Func(key + "@pre", fn.node, fn.mod, None)
         post = Func(key + "@post", fn.node, fn.mod, None)
         analyse(pre, flat[:cut + 1], pre.calls, pre.effects)
         analyse(post, flat[cut + 1:], post.calls, post.effects)
         funcs[pre.key], funcs[post.key] = pre, post
-        entries.append(pre.key)
+        return pre.key
+
+    entries = []
+    for name in ("load", "loads"):
+        entries.append(split_at(f"_persist.{name}", "audit_tree", forbidden_before=("construct", "_construct")))
+    # C18: everything dump() does up to and including the serialisation into memory
+    dump_entries = [split_at("_persist.dump", "_save")]
     for key in ("_persist.get_untrusted_types", "_visualize.visualize"):
         if key not in funcs:
             raise Abort(f"{key} not found")
         entries.append(key)
-    return funcs, entries
+    return funcs, entries, dump_entries
 
 
 def coq_str(s):
@@ -551,7 +604,7 @@ def reach(funcs, entries):
 
 def main(out_v, out_json):
     try:
-        funcs, entries = scan()
+        funcs, entries, dump_entries = scan()
     except Abort as e:
         print("ABORT: " + str(e), file=sys.stderr)
         sys.exit(2)
@@ -580,6 +633,9 @@ def main(out_v, out_json):
     lines.append(f"Definition post_witness_path : list string := [{'; '.join(coq_str(e) for e in (wit or []))}].")
     seen, parent = reach(funcs, entries)
     lines.append(f"Definition reach_hint : list string := [{'; '.join(coq_str(e) for e in sorted(seen))}].")
+    dseen, dparent = reach(funcs, dump_entries)
+    lines.append(f"Definition dump_entries : list string := [{'; '.join(coq_str(e) for e in dump_entries)}].")
+    lines.append(f"Definition dump_reach_hint : list string := [{'; '.join(coq_str(e) for e in sorted(dseen))}].")
     Path(out_v).write_text("\n".join(lines) + "\n")
     bad = []
     for k in sorted(seen):
@@ -589,7 +645,9 @@ def main(out_v, out_json):
                 path.append(parent[path[-1]])
             bad.append({"function": k, "effects": sorted(funcs[k].effects), "path": list(reversed(path))})
     post_seen, _ = reach(funcs, ["_persist.load@post"])
-    info = {"edges_list": {k: sorted(f.calls) for k, f in funcs.items()},
+    dump_effects = sorted({e for k in dseen if k in funcs for e in funcs[k].effects})
+    info = {"dump_entries": dump_entries, "dump_reachable": len(dseen), "dump_effects_reachable": dump_effects,
+            "edges_list": {k: sorted(f.calls) for k, f in funcs.items()},
             "reflect_reachable": sorted(k for k in seen if k in funcs and funcs[k].effects),
             "functions": len(funcs), "edges": sum(len(f.calls) for f in funcs.values()), "entries": entries,
             "reachable_before_verdict": len(seen), "effectful_reachable": bad,
